@@ -537,7 +537,7 @@ impl Plist {
                 /*
                  * Valid line containing non-whitespace characters.
                  */
-                if start < idx && tstart + 1 < idx {
+                if start < idx && tstart < idx {
                     lines.push((start, idx));
                 }
                 /*
